@@ -1,7 +1,8 @@
 use proc_macro2::{Ident, Span, TokenStream};
-use quote::{ToTokens, TokenStreamExt};
+use quote::{quote, ToTokens, TokenStreamExt};
 use syn::{
-    punctuated::Punctuated, spanned::Spanned, Data, DeriveInput, Expr, Lit, Meta, Token, UnOp,
+    punctuated::Punctuated, spanned::Spanned, Data, DeriveInput, Expr, Fields, Lit, Meta, Token,
+    UnOp,
 };
 
 #[derive(Debug)]
@@ -67,18 +68,24 @@ impl ToTokens for DiscriminantType {
 }
 
 impl DiscriminantType {
-    pub(crate) fn from_ast(ast: &DeriveInput) -> syn::Result<Self> {
+    /// Returns an integer type that can hold every discriminant, and the discriminant of each variant.
+    pub(crate) fn from_ast(ast: &DeriveInput) -> syn::Result<(Self, Vec<i128>)> {
         if let Data::Enum(data) = &ast.data {
+            let mut repr_type = None;
+
             for attr in ast.attrs.iter() {
                 if attr.path().is_ident("repr") {
                     // #[repr(u8)], #[repr(u16)], ..., etc.
                     if let Meta::List(list) = &attr.meta {
+                        // e.g. `C, u8` or `align(2)`: only a primitive integer type matters here
                         let result =
-                            list.parse_args_with(Punctuated::<Ident, Token![,]>::parse_terminated)?;
+                            list.parse_args_with(Punctuated::<Meta, Token![,]>::parse_terminated)?;
 
-                        if let Some(value) = result.into_iter().next() {
-                            if let Some(t) = Self::parse_str(value.to_string()) {
-                                return Ok(t);
+                        for value in result {
+                            if let Some(value) = value.path().get_ident() {
+                                if let Some(t) = Self::parse_str(value.to_string()) {
+                                    repr_type = Some(t);
+                                }
                             }
                         }
                     }
@@ -88,6 +95,7 @@ impl DiscriminantType {
             let mut min = i128::MAX;
             let mut max = i128::MIN;
             let mut counter = 0i128;
+            let mut values = Vec::with_capacity(data.variants.len());
 
             for variant in data.variants.iter() {
                 if let Some((_, exp)) = variant.discriminant.as_ref() {
@@ -148,22 +156,71 @@ impl DiscriminantType {
                     max = counter;
                 }
 
+                values.push(counter);
+
                 counter = counter.saturating_add(1);
             }
 
-            Ok(if min >= i8::MIN as i128 && max <= i8::MAX as i128 {
-                Self::I8
-            } else if min >= i16::MIN as i128 && max <= i16::MAX as i128 {
-                Self::I16
-            } else if min >= i32::MIN as i128 && max <= i32::MAX as i128 {
-                Self::I32
-            } else if min >= i64::MIN as i128 && max <= i64::MAX as i128 {
-                Self::I64
-            } else {
-                Self::I128
-            })
+            if let Some(repr_type) = repr_type {
+                return Ok((repr_type, values));
+            }
+
+            Ok((
+                if min >= i8::MIN as i128 && max <= i8::MAX as i128 {
+                    Self::I8
+                } else if min >= i16::MIN as i128 && max <= i16::MAX as i128 {
+                    Self::I16
+                } else if min >= i32::MIN as i128 && max <= i32::MAX as i128 {
+                    Self::I32
+                } else if min >= i64::MIN as i128 && max <= i64::MAX as i128 {
+                    Self::I64
+                } else {
+                    Self::I128
+                },
+                values,
+            ))
         } else {
             Err(syn::Error::new(ast.span(), "not an enum"))
         }
+    }
+}
+
+impl DiscriminantType {
+    /// Creates an expression which compares the discriminants of `self` and `other`. The
+    /// discriminants are produced by matching on the variants, so the comparison does not depend on
+    /// how the enum is laid out in memory.
+    pub(crate) fn cmp_token_stream(ast: &DeriveInput) -> syn::Result<TokenStream> {
+        let (discriminant_type, values) = Self::from_ast(ast)?;
+
+        let mut arms_token_stream = TokenStream::new();
+
+        if let Data::Enum(data) = &ast.data {
+            for (variant, value) in data.variants.iter().zip(values) {
+                let variant_ident = &variant.ident;
+
+                let pattern = match &variant.fields {
+                    Fields::Unit => quote!(Self::#variant_ident),
+                    Fields::Named(_) => quote!(Self::#variant_ident { .. }),
+                    Fields::Unnamed(_) => quote!(Self::#variant_ident ( .. )),
+                };
+
+                let abs = proc_macro2::Literal::u128_unsuffixed(value.unsigned_abs());
+
+                arms_token_stream.extend(if value < 0 {
+                    quote!(#pattern => -#abs,)
+                } else {
+                    quote!(#pattern => #abs,)
+                });
+            }
+        }
+
+        Ok(quote! {
+            {
+                let self_discriminant: #discriminant_type = match self { #arms_token_stream };
+                let other_discriminant: #discriminant_type = match other { #arms_token_stream };
+
+                ::core::cmp::Ord::cmp(&self_discriminant, &other_discriminant)
+            }
+        })
     }
 }
